@@ -6,6 +6,7 @@ import (
 	"io"
 	"runtime/debug"
 	"strings"
+	"sync"
 
 	"github.com/Eyevinn/mp4ff/avc"
 	"github.com/Eyevinn/mp4ff/bits"
@@ -50,7 +51,7 @@ var kindBatch = [nKinds]int{kBoxR: 12, kBoxSR: 12, kParamSets: 6, kSlice: 4, kSE
 var kindClass = [nKinds]string{"file", "file", "file", "box", "box", "file", "file", "file", "file", "file", "file", "file",
 	"psets", "sample", "sei", "annexb|sample", "sample", "file", "file"}
 
-var kindVariants = [nKinds]int{kInfo: 5, kEncode: 4, kEncodeSW: 2, kEncrypt: 4, kSidx: 2, kFragmentify: 2, kAnnexB: 1, kParamSets: 2}
+var kindVariants = [nKinds]int{kInfo: 5, kEncode: 4, kEncodeSW: 2, kEncrypt: 8, kSidx: 2, kFragmentify: 2, kAnnexB: 1, kParamSets: 2}
 
 var infoLevels = []string{"", "all:1", "trun:1,stsz:1,senc:1,sidx:1", "all:2", "stss:1,ctts:1,stts:1,all:0"}
 
@@ -462,10 +463,34 @@ func opStbl(pl *pool, in *input, _ int) (uint64, error) {
 
 // ---- encryption ------------------------------------------------------------
 
+// keyBufs recycles caller-owned key buffers: a key is copied into a pooled
+// buffer, handed to the library, and the buffer is later refilled with a
+// different key by whoever gets it next. A library that keeps a reference to
+// the caller's key slice across calls (hidden state) then sees it change.
+var keyBufs = sync.Pool{New: func() interface{} { return new([16]byte) }}
+
+// withKey runs f with a pooled copy of key whose first byte is varied by
+// variant (so that successive operations use different keys).
+func withKey(key []byte, variant int, f func(k []byte) (uint64, error)) (uint64, error) {
+	kb := keyBufs.Get().(*[16]byte)
+	copy(kb[:], key)
+	kb[15] ^= byte(variant >> 2 & 3)
+	h, err := f(kb[:])
+	for i := range kb {
+		kb[i] = 0xA5 // the caller wipes its key buffer after use
+	}
+	keyBufs.Put(kb)
+	return h, err
+}
+
 // opEncrypt: reader-path decode (copies the input, so the documented in-place
 // encryption writes private memory), InitProtect + EncryptFragment, encode;
 // then decode the protected output again, DecryptInit + DecryptSegment.
 func opEncrypt(pl *pool, in *input, variant int) (uint64, error) {
+	return withKey(pl.key.data, variant, func(k []byte) (uint64, error) { return opEncryptKey(pl, in, variant, k) })
+}
+
+func opEncryptKey(pl *pool, in *input, variant int, key []byte) (uint64, error) {
 	if in.key != nil {
 		return 0, inapplicable("already encrypted")
 	}
@@ -504,13 +529,13 @@ func opEncrypt(pl *pool, in *input, variant int) (uint64, error) {
 			return 0, err
 		}
 	}
-	ipd, err := mp4.InitProtect(f.Init, pl.key.data, iv, scheme, mp4.UUID(pl.kid.data), psshs)
+	ipd, err := mp4.InitProtect(f.Init, key, iv, scheme, mp4.UUID(pl.kid.data), psshs)
 	if err != nil {
 		return 0, err
 	}
 	for _, seg := range f.Segments {
 		for _, frag := range seg.Fragments {
-			if err := mp4.EncryptFragment(frag, pl.key.data, iv, ipd); err != nil {
+			if err := mp4.EncryptFragment(frag, key, iv, ipd); err != nil {
 				return 0, err
 			}
 		}
@@ -525,7 +550,7 @@ func opEncrypt(pl *pool, in *input, variant int) (uint64, error) {
 	if err != nil {
 		return 0, fmt.Errorf("re-decode of encrypted output: %w", err)
 	}
-	dh, err := decryptFile(g, pl.key.data)
+	dh, err := decryptFile(g, key)
 	if err != nil {
 		return 0, fmt.Errorf("decrypt of encrypted output: %w", err)
 	}
@@ -566,7 +591,7 @@ func opDecrypt(pl *pool, in *input, _ int) (uint64, error) {
 	if !f.IsFragmented() {
 		return 0, inapplicable("not fragmented")
 	}
-	return decryptFile(f, in.key)
+	return withKey(in.key, 0, func(k []byte) (uint64, error) { return decryptFile(f, k) })
 }
 
 // ---- video elementary stream helpers ----------------------------------------
